@@ -410,6 +410,27 @@ def addon_block(rng, n=None, zero=False):
     return c
 
 
+def sdac_block(rng):
+    """Solid-sorbent direct air capture add-on (its own economics object and report block)."""
+    c = [['Do S-DAC-GT Calculations', 'True']]
+    opts = [('WACC', lambda: _round(rng.uniform(1, 25), 3)), ('S-DAC-GT CAPEX', lambda: _round(rng.uniform(150, 4000), 2)),
+            ('S-DAC-GT OPEX', lambda: _round(rng.uniform(12, 400), 2)),
+            ('S-DAC-GT Electrical Energy', lambda: _round(rng.uniform(150, 3000), 2)),
+            ('S-DAC-GT Thermal Energy', lambda: _round(rng.uniform(150, 4000), 2)),
+            ('S-DAC-GT Natural Gas Price', lambda: _round(_logu(rng, 0.6, 60), 3)),
+            ('S-DAC-GT CO2 Intensity of Electricity', lambda: _round(rng.uniform(0, 1), 4)),
+            ('S-DAC-GT CAPEX Multiplier', lambda: _round(rng.uniform(0.5, 3), 3)),
+            ('S-DAC-GT OPEX Multiplier', lambda: _round(rng.uniform(0.5, 3), 3)),
+            ('S-DAC-GT Thermal Energy Multiplier', lambda: _round(rng.uniform(0.5, 1.8), 3)),
+            ('S-DAC-GT CO2 Transportation Cost', lambda: _round(rng.uniform(1, 50), 3)),
+            ('S-DAC-GT CO2 Storage Cost', lambda: _round(rng.uniform(5, 50), 3)),
+            ('S-DAC-GT CO2 Percent Energy Devoted To Process', lambda: _round(rng.uniform(0.05, 1.0), 3))]
+    for name, f in opts:
+        if rng.random() < 0.5:
+            c.append([name, f()])
+    return c
+
+
 def overpressure_block(rng, depth_km):
     return [['Overpressure Percentage', _round(rng.uniform(100, 250), 4)],
             ['Overpressure Depletion Rate', _round(_logu(rng, 0.2, 20), 3)],
@@ -439,7 +460,7 @@ def odd_cells():
 
 
 def synth_case(rng, cell, *, costs=True, incentives=True, prices=True, addons=None, overpressure=None, nseg=None,
-               impedance=None, resource='plausible'):
+               impedance=None, resource='plausible', sdac=None):
     """One synthetic configuration for grid cell (economic model, end-use, plant type, reservoir model)."""
     em, eu, pt, rm = cell
     c = []
@@ -482,6 +503,10 @@ def synth_case(rng, cell, *, costs=True, incentives=True, prices=True, addons=No
         c += addon_block(rng)
         # add-ons with more than one construction year abort the extended-profile writer (length mismatch)
         cset(c, 'Construction Years', 1)
+    if sdac is None:
+        sdac = rng.random() < 0.06
+    if sdac:
+        c += sdac_block(rng)
     c.append(['Print Output to Console', 0])
     return c
 
